@@ -112,6 +112,16 @@ func (c *Conn) Close() error {
 	return c.conn.Close()
 }
 
+// CloseWrite shuts down the writing side of the wrapped connection when it
+// supports that, so that a shaped connection can be half-closed like the
+// connection it wraps; otherwise it closes the connection.
+func (c *Conn) CloseWrite() error {
+	if cw, ok := c.conn.(interface{ CloseWrite() error }); ok {
+		return cw.CloseWrite()
+	}
+	return c.Close()
+}
+
 // LocalAddr returns the local network address.
 func (c *Conn) LocalAddr() net.Addr {
 	return c.conn.LocalAddr()
